@@ -6,7 +6,7 @@ use crate::{
 };
 
 pub fn apply(tokens: &[Token], options: &ParseOptions) -> Result<(), Vec<Diagnostic>> {
-    if !options.allow_c_style_comments {
+    if options.allow_c_style_comments {
         return Ok(());
     }
 
@@ -19,6 +19,10 @@ pub fn apply(tokens: &[Token], options: &ParseOptions) -> Result<(), Vec<Diagnos
                 Label::span(tok.span.clone(), "Comment"),
             ));
         }
+    }
+
+    if !errors.is_empty() {
+        return Err(errors);
     }
     Ok(())
 }
